@@ -30,6 +30,10 @@ func Run(conf config.Config) error {
 		}
 		if errOut == nil && errLog == nil && os.Chdir(filepath.Dir(absIn)) == nil {
 			conf.Input, conf.Output, conf.Log = absIn, absOut, absLog
+			// Keep $PWD in step, as a shell does: the go command names the working directory
+			// by it, and when the path runs through a symbolic link only that spelling makes
+			// the input file a member of the package in the working directory.
+			_ = os.Setenv("PWD", filepath.Dir(absIn))
 		}
 	}
 
